@@ -79,7 +79,8 @@ func (c *TrackSetController) Add(op *TrackOp) {
 
 func (c *TrackSetController) Distribute(op *TrackOp) {
 	for i := range c.set.Len() {
-		c.set.Add(i, op)
+		x := *op
+		c.set.Get(i).Add(&x)
 	}
 }
 
